@@ -46,7 +46,7 @@
 // -DTREE_SEL=k selects the selector / transformer variant (engine/tree.hpp)
 #define VERIF_K 3
 #define VERIF_GROUPS ( T::G_CORE | T::G_MUST | T::G_EXC | T::G_HOLE )
-#define VERIF_FAMS ( 1 | 2 )
+#define VERIF_FAMS ( 1 | 2 | 32 )
 #define VERIF_CTLS 1
 #define VERIF_TREE
 #elif defined( SPACE_LIMITS )
@@ -62,7 +62,7 @@
 #define VERIF_CTLS 8
 #elif defined( SPACE_ATOMS )
 // library atoms (ascii convenience + contrib) under every one-level context, on guard-paged inputs; -DATOMS_LAZY=0|1
-#define VERIF_K 3
+#define VERIF_K 4
 #define VERIF_GROUPS ( T::G_CORE | T::G_ATOM2 | T::G_ATOM3 | T::G_CONTRIB | T::G_POS )
 #define VERIF_FAMS ( 1 | 2 )
 #define VERIF_CTLS 1
@@ -316,6 +316,7 @@ struct Space
       result_prop = "C08";
       exc_prop = "C08";
       check_actions = false;
+      check_hooks = true;
       {
          // only operators whose sub-rules are all table rules: coverage keys its map by rule name and visits subs_t,
          // and a table rule's subs_t lists table rules only (anonymous inner rules would be an artefact of the engine)
@@ -345,8 +346,9 @@ struct Space
          p.L = thorough ? 4 : 3;
          p.sigma = "ab";
          p.act_may_throw = true;
+         p.act_may_veto = true;
          p.dev_bound = thorough ? 2 : 1;
-         p.cfgs = cfg_product( { 0, 1 }, { 0 }, { 1 }, { 0 } );
+         p.cfgs = cfg_product( { 0, 1, 5 }, { 0 }, { 1 }, { 0 } );
          phases.push_back( p );
          Phase q;
          q.name = "parse_tree_open";
@@ -422,6 +424,19 @@ struct Space
             { "atoms_lines", { "SHEBANG", "EOL", "EOLF", "UTF8_ANY", "STRING_CRLF", "BOF" }, std::string( "#!a\n\r\xC3\xA9" ), thorough ? 5 : 4, {} },
             { "atoms_forty_two", { "FORTY_TWO_A" }, "a", 0, { a41, a42, a43, a42 + "b", a41 + "b", "b" + a42, a41 + "ba" } },
          };
+         {
+            // contrib combinators (separated_seq, if_then chains) over consuming / nullable / failing leaves
+            Phase p;
+            p.name = "contrib_combinators";
+            p.root = { "SEPARATED_SEQ", "IF_THEN_ELSE_THEN", "IF_THEN", "IF_THEN_CHAIN" };
+            p.inner = { "ANY", "ONE_A", "STRING_AB", "EOF_", "SUCCESS", "ISTRING_AB", "ROMM02_A", "BYTES2" };
+            p.N = 4;
+            p.L = thorough ? 5 : 4;
+            p.sigma = "abA";
+            p.buf_modes = { 1 };
+            p.cfgs = cfg_product( { 0, 1 }, { 0 }, { 1 }, { 1, 0 } );
+            phases.push_back( p );
+         }
          for( const auto& f : fams ) {
             Phase p;
             p.name = f.name;
